@@ -710,17 +710,20 @@ func ruleO4(c *an.Ctx) {
 	mpb := c.NeedFunc(pkgCore, "(*Node).makePrenodesForBinding")
 	if mpb != nil {
 		nExp, nBind := 0, 0
-		an.Instrs(mpb, func(in ssa.Instruction) {
-			call, ok := in.(*ssa.Call)
-			if !ok {
-				return
-			}
-			if call.Call.IsInvoke() && call.Call.Method.Name() == "FindRefs" {
-				nExp++
-			} else if f := call.Call.StaticCallee(); f != nil && f.Name() == "FindRefs" {
-				nBind++
-			}
-		})
+		// in the function or in the private helpers it was split into
+		for _, m := range familyOf(p, mpb, 2) {
+			an.Instrs(m, func(in ssa.Instruction) {
+				call, ok := in.(*ssa.Call)
+				if !ok {
+					return
+				}
+				if call.Call.IsInvoke() && call.Call.Method.Name() == "FindRefs" {
+					nExp++
+				} else if f := call.Call.StaticCallee(); f != nil && f.Name() == "FindRefs" {
+					nBind++
+				}
+			})
+		}
 		c.Check("O4", "fork-roots(Exp.FindRefs and ResolvedBinding.FindRefs)@(*Node).makePrenodesForBinding", mpb.Pos(), nExp >= 1 && nBind >= 1,
 			fmt.Sprintf("both the typed references and the raw expression references (fork roots) must be collected (typed=%d raw=%d)", nBind, nExp))
 		// the raw-reference pass is unconditional: every path that returns passes bind.Exp.FindRefs(),
@@ -935,7 +938,21 @@ func ruleO5(c *an.Ctx) {
 	}
 	okMap, _ := an.MustPass(setPre, nil, an.IsReturn, func(in ssa.Instruction) bool {
 		mu, ok := in.(*ssa.MapUpdate)
-		return ok && an.LoadsField(mu.Map, prenodes) && mu.Value == ssa.Value(setPre.Params[1])
+		if !ok || mu.Value != ssa.Value(setPre.Params[1]) {
+			return false
+		}
+		if an.LoadsField(mu.Map, prenodes) {
+			return true
+		}
+		// a fresh map literal holding the prenode that becomes self.prenodes
+		if _, fresh := mu.Map.(*ssa.MakeMap); fresh {
+			for _, st := range an.StoresToField(setPre, prenodes) {
+				if st.Val == mu.Map {
+					return true
+				}
+			}
+		}
+		return false
 	})
 	c.Check("O5", "setPrenode-stores-prenode@(*Node).setPrenode", setPre.Pos(), okMap, "setPrenode must store the prenode into self.prenodes on every path")
 	okPost, _ := an.MustPass(setPre, nil, an.IsReturn, func(in ssa.Instruction) bool { return an.CalleeIs(in, setPost) })
